@@ -335,6 +335,49 @@ algebraDone:
 	}
 	// sum of hybrid scores on the "seen" edge
 	sumOK := false
+	// … possibly inside a helper called on that edge, in which the sum is on every path
+	for _, b := range f.Blocks {
+		if !onlyViaAny(seenTrue, b) {
+			continue
+		}
+		for _, in := range b.Instrs {
+			h := ssax.StaticModuleCallee(in)
+			if h == nil || len(h.Blocks) == 0 {
+				continue
+			}
+			for _, hb := range h.Blocks {
+				for _, hin := range hb.Instrs {
+					st, ok := hin.(*ssa.Store)
+					if !ok || fieldOfAddr(st.Addr) != "models.SearchResult.HybridScore" {
+						continue
+					}
+					bo, ok := st.Val.(*ssa.BinOp)
+					if !ok || bo.Op != token.ADD {
+						continue
+					}
+					isOld := func(v ssa.Value) bool {
+						u, ok := v.(*ssa.UnOp)
+						if !ok || u.Op != token.MUL {
+							return false
+						}
+						a, ok1 := u.X.(*ssa.FieldAddr)
+						t, ok2 := st.Addr.(*ssa.FieldAddr)
+						return ok1 && ok2 && a.Field == t.Field && a.X == t.X
+					}
+					other := bo.Y
+					if !isOld(bo.X) {
+						if !isOld(bo.Y) {
+							continue
+						}
+						other = bo.X
+					}
+					if ssax.Prov(other)["field:HybridScore"] && (hb == h.Blocks[0] || !exitReachableAvoiding(h.Blocks[0], hb)) {
+						sumOK = true
+					}
+				}
+			}
+		}
+	}
 	for _, b := range f.Blocks {
 		for _, in := range b.Instrs {
 			st, ok := in.(*ssa.Store)
